@@ -165,6 +165,10 @@ def p3(prog):
 # ---------------------------------------------------------------------------
 # P2b: the profile invariant, by abstract evaluation of stack's own member functions
 
+class OutOfBounds(Exception):
+    """the interpreted code dereferenced an iterator outside its vector: positive evidence of a memory error"""
+
+
 class _TypeObj:
     def __init__(self, code):
         self._code = code
@@ -186,10 +190,14 @@ class _It:
     def arith(self, op, n):
         return _It(self.vec, self.pos + (n if op == "+" else -n), self.reverse)
 
+    def cmp_with(self, op, other):
+        a, b = self.pos, other.pos
+        return {"==": a == b, "!=": a != b, "<": a < b, ">": a > b, "<=": a <= b, ">=": a >= b}[op]
+
     def deref(self):
         i = (len(self.vec.items) - 1 - self.pos) if self.reverse else self.pos
         if not (0 <= i < len(self.vec.items)):
-            raise Broken("abstract evaluation dereferences an iterator outside the vector (index %d of %d)" % (i, len(self.vec.items)))
+            raise OutOfBounds("element %d of a vector of %d" % (i, len(self.vec.items)))
         return self.vec.items[i]
 
 
@@ -269,6 +277,25 @@ def p2b(prog, tier="quick"):
         if bad is None and st.m_profile != expect(st):
             bad = "%s: after %s the stack %s has profile %#x, expected %#x" % (what, " ".join(trace), st.m_values.items, st.m_profile, expect(st))
     # all stacks built by pushes
+    try:
+        return _p2b_body(prog, tier, ev, meth, W, expect, clone, inst, findings)
+    except OutOfBounds as e:
+        findings.append({"key": "P2b:profile-invariant", "where": "libzwerg/stack.hh",
+                         "msg": "a stack member function reads %s while maintaining the profile" % e, "detail": None})
+        return inst, findings
+
+
+def _p2b_body(prog, tier, ev, meth, W, expect, clone, inst, findings):
+    from absint import Thrown
+    codes = (1, 2, 3) if tier == "thorough" else (1, 2)
+    maxd = W + 3 if tier == "thorough" else W + 2
+    n_eval = 0
+    bad = None
+
+    def check(st, what, trace):
+        nonlocal bad
+        if bad is None and st.m_profile != expect(st):
+            bad = "%s: after %s the stack %s has profile %#x, expected %#x" % (what, " ".join(trace), st.m_values.items, st.m_profile, expect(st))
     frontier = [(_Stack(), [])]
     allst = []
     while frontier:
